@@ -42,7 +42,7 @@ fn groups(args: &[String]) -> (Vec<String>, String, Vec<String>) {
     (grp(&args[..cut]), sub, post)
 }
 
-fn oracle(rec: &Rec, b: &Built, line: &str, out: &mut Out) {
+fn oracle(rec: &Rec, b: &Built, line: &str, out: &mut Out, root: &std::path::Path, scratch: &std::path::Path) {
     let (mut ipre, isub, ipost) = groups(&argv(&b.install));
     let (mut upre, usub, upost) = groups(&argv(&b.upgrade));
     if let Some(p) = rec.some("@listen") {
@@ -76,7 +76,95 @@ fn oracle(rec: &Rec, b: &Built, line: &str, out: &mut Out) {
     if b.install_user_mode != b.data.user_mode {
         out.oracle_fail("upgrade-keeps-user-mode", line, "user_mode recorded differs from the one installed with");
     }
+    if b.upgrade_levels != (b.install_user_mode, b.install_user_mode) {
+        out.oracle_fail(
+            "upgrade-keeps-service-level",
+            line,
+            &format!("installed at {} level; ServiceManager::upgrade uninstalls at {} level and installs at {} level", level(b.install_user_mode), level(b.upgrade_levels.0), level(b.upgrade_levels.1)),
+        );
+    }
+    if let Some(given) = rec.some("@cli_cache") {
+        let want = format!("--bootstrap-cache-dir {}", given.replace("$R", &root.to_string_lossy()));
+        if !ipre.contains(&want) {
+            out.oracle_fail("user-bootstrap-cache-dir-is-written", line, &format!("`antctl add --bootstrap-cache-dir {given}` was accepted, the installed definition has {:?}", ipre.iter().filter(|g| g.starts_with("--bootstrap-cache-dir")).collect::<Vec<_>>()));
+        }
+        out.count("circumstance:@cli_cache");
+    }
+    // the unit file: whatever is unit-safe must be read back by systemd's rules exactly as written
+    for (which, ctx) in [("install", &b.install), ("upgrade", &b.upgrade)] {
+        match render_systemd_unit(ctx, scratch) {
+            Err(e) => out.oracle_fail("unit-renders", line, &e),
+            Ok(unit) => {
+                let value = unit_exec_line(&unit).and_then(|l| l.strip_prefix("ExecStart=")).unwrap_or("");
+                let mut want = vec![ctx.program.to_string_lossy().to_string()];
+                want.extend(argv(ctx));
+                if unit_safe(ctx) {
+                    out.count("unit:safe");
+                    if systemd_split(value) != Some(want) {
+                        out.oracle_fail(&format!("{which}-unit-read-back-as-written"), line, &format!("ExecStart={value} is not read back as the program and the {} argument strings", ctx.args.len()));
+                    }
+                } else {
+                    out.count("unit:not-unit-safe(K-t-unit-unquoted, not judged)");
+                }
+                let envs = ctx.environment.clone().unwrap_or_default();
+                if envs.iter().all(|(k, v)| !format!("{k}{v}").chars().any(|c| "\"\\%$\n\r".contains(c))) {
+                    let got: Vec<Option<Vec<String>>> = unit_env_lines(&unit).iter().map(|l| systemd_split(l.strip_prefix("Environment=").unwrap_or(""))).collect();
+                    let want: Vec<Option<Vec<String>>> = envs.iter().map(|(k, v)| Some(vec![format!("{k}={v}")])).collect();
+                    if got != want {
+                        out.oracle_fail(&format!("{which}-unit-environment-read-back"), line, &format!("Environment lines {:?} are not read back as {:?}", unit_env_lines(&unit), envs));
+                    }
+                }
+            }
+        }
+    }
+    if let Some(r) = &b.restart {
+        out.count(&format!("drestart:{}:{}", r.kind, r.result));
+        if let Some((rctx, il)) = &r.install {
+            let (rpre, rsub, rpost) = groups(&argv(rctx));
+            let (upre2, usub2, upost2) = groups(&argv(&b.upgrade));
+            if r.kind == "retain" {
+                if rpre != upre2 || rsub != usub2 || rpost != upost2 {
+                    let lost: Vec<&String> = upre2.iter().chain(upost2.iter()).filter(|g| !rpre.contains(g) && !rpost.contains(g)).collect();
+                    let added: Vec<&String> = rpre.iter().chain(rpost.iter()).filter(|g| !upre2.contains(g) && !upost2.contains(g)).collect();
+                    out.oracle_fail("restart-args-equiv", line, &format!("the daemon's restart (peer id retained) regenerates the definition without {lost:?} and with {added:?}; an upgrade of the same registry entry writes them"));
+                }
+                if rctx.autostart != b.upgrade.autostart || rctx.program != b.upgrade.program || rctx.username != b.upgrade.username || rctx.label != b.upgrade.label {
+                    out.oracle_fail("restart-settings-equiv", line, "autostart / program / user / label differ between the restarted and the upgraded definition");
+                }
+                if rec.some("@provided").is_none() && rctx.environment != b.upgrade.environment {
+                    out.oracle_fail("restart-settings-equiv", line, &format!("environment {} after restart, {} after upgrade", env_show(&rctx.environment), env_show(&b.upgrade.environment)));
+                }
+                if *il != b.install_user_mode || r.uninstall_level != Some(b.install_user_mode) {
+                    out.oracle_fail(
+                        "restart-keeps-service-level",
+                        line,
+                        &format!("installed at {} level; the daemon's restart uninstalls at {:?} and installs at {} level", level(b.install_user_mode), r.uninstall_level.map(level), level(*il)),
+                    );
+                }
+            } else {
+                let changed = ["--root-dir ", "--log-output-dest ", "--port ", "--metrics-server-port "];
+                let keep = |v: &Vec<String>| -> Vec<String> { v.iter().filter(|g| !changed.iter().any(|c| g.starts_with(c))).cloned().collect() };
+                if keep(&rpre) != keep(&upre2) || rsub != usub2 || rpost != upost2 {
+                    out.oracle_fail("restart-replacement-args-equiv", line, &format!("the replacement service is launched with {:?}, the service it replaces with {:?}", keep(&rpre), keep(&upre2)));
+                }
+                if let Some((nd, uctx, levels)) = &r.replacement {
+                    let (a, s1, c) = groups(&argv(uctx));
+                    if a != rpre || s1 != rsub || c != rpost || uctx.program != rctx.program || uctx.username != rctx.username || uctx.autostart != rctx.autostart || uctx.label != rctx.label {
+                        out.oracle_fail("replacement-upgrade-args-equiv", line, "the replacement's first upgrade regenerates a different definition than the daemon installed");
+                    }
+                    if *levels != (*il, *il) || nd.user_mode != *il {
+                        out.oracle_fail("replacement-keeps-service-level", line, "replacement installed / recorded / upgraded at different levels");
+                    }
+                }
+            }
+        }
+    }
+    match (rec.some("@provided"), rec.some("@later"), rec.some("@prev"), rec.some("options.env_variables")) {
+        (None, Some(_), _, _) => out.count("env:later-add-rewrites-registry-wide(K-t-env-later-add, not judged)"),
+        _ => {}
+    }
     match (rec.some("@provided"), rec.some("@prev"), rec.some("options.env_variables")) {
+        _ if rec.some("@provided").is_none() && rec.some("@later").is_some() => {}
         (Some(p), _, _) => {
             if env_show(&b.upgrade.environment) != p {
                 out.oracle_fail("upgrade-env-override", line, &format!("--env {p} given to upgrade, service gets {}", env_show(&b.upgrade.environment)));
@@ -97,11 +185,17 @@ fn main() {
     let mut out = Out::new(&args.out);
     let mut rng = Rng::new(args.seed);
     let rt = tokio::runtime::Builder::new_current_thread().enable_all().build().expect("rt");
-    let home = args.out.join("home");
-    std::fs::create_dir_all(&home).expect("home");
-    std::env::set_var("HOME", &home);
-    std::env::set_var("USER", "root");
     let root: PathBuf = args.out.join("fs");
+    // HOME inside the scratch root: the user-mode default directories are `$R/home/.local/share/autonomi/node/..`
+    std::env::set_var("HOME", root.join("home"));
+    std::env::remove_var("XDG_DATA_HOME");
+    std::env::set_var("USER", "root");
+    let scratch: PathBuf = args.out.join("scratch");
+    if root.to_string_lossy().chars().any(|c| !(c.is_ascii_alphanumeric() || "/-_.".contains(c))) {
+        eprintln!("harness infrastructure failure: the scratch root {root:?} must consist of plain characters");
+        std::process::exit(3);
+    }
+    out.notes.push(format!("cmd::node::add bootstrap_cache_dir rule = `{}`", cli_cache_rule()));
     let rule = upgrade_autostart_rule();
     out.notes.push(format!("UpgradeOptions.auto_restart in cmd/node.rs = `{rule}`"));
 
@@ -123,6 +217,28 @@ fn main() {
             let mut rec = gen_record_with(1 << 15, 0, &mut rng, None);
             rec.set_some("options.owner", "Ünal_Çelik");
             rec.set("@case", case_table("Ünal_Çelik").unwrap());
+            lines.push(rec.line("cfg"));
+        }
+        // audit round 6: the histories of C20-2 / C20-3 / C20-4 / C20-5
+        {
+            let plain = |rec: &mut Rec| rec.0.retain(|(k, _)| !(k.starts_with('@') && k != "@rpc_default_ip" && k != "@case") && !k.starts_with("~."));
+            // user-mode add --metrics-port .. --owner bob; started; the daemon restarts it with the peer id retained
+            let mut rec = gen_record_with((1 << 7) | (1 << 14) | (1 << 15), 0, &mut rng, None);
+            plain(&mut rec);
+            rec.set_some("options.owner", "bob");
+            rec.set_some("metrics_free_port", "13001");
+            rec.set("@listen", "s:4242");
+            rec.set("@drestart", "s:retain");
+            lines.push(rec.line("cfg"));
+            // user-mode add --bootstrap-cache-dir given on antctl's command line (no service user, no default)
+            let mut rec = gen_record_with(1 << 7, 1, &mut rng, None);
+            plain(&mut rec);
+            rec.set_some("@cli_cache", "$R/my-cache");
+            lines.push(rec.line("cfg"));
+            // root add with a service user: the default directory must not displace the one given
+            let mut rec = gen_record_with((1 << 9) | (1 << 18), 0, &mut rng, None);
+            plain(&mut rec);
+            rec.set_some("@cli_cache", "$R/srv/bootstrap");
             lines.push(rec.line("cfg"));
         }
         let all = (1u64 << N_BITS) - 1;
@@ -182,12 +298,38 @@ fn main() {
                 out.oracle_fail("builds", &line, &format!("the real code refused the record: {e}"));
             }
             Ok(Ok(bs)) => {
-                let shown: Vec<String> = bs.iter().map(|b| format!("S{} I: {} || U: {}", b.index, show_ctx(&b.install, &root), show_ctx(&b.upgrade, &root))).collect();
+                let shown: Vec<String> = bs
+                    .iter()
+                    .map(|b| {
+                        let mut s = format!(
+                            "S{} I: {} level={} || U: {} levels={}/{}",
+                            b.index,
+                            show_ctx(&b.install, &root),
+                            level(b.install_user_mode),
+                            show_ctx(&b.upgrade, &root),
+                            level(b.upgrade_levels.0),
+                            level(b.upgrade_levels.1)
+                        );
+                        if let Some(r) = &b.restart {
+                            match &r.install {
+                                None => s.push_str(&format!(" || R: {}", r.result)),
+                                Some((ctx, il)) => {
+                                    s.push_str(&format!(" || R: {} levels={}/{}", show_ctx(ctx, &root), r.uninstall_level.map(level).unwrap_or("-"), level(*il)));
+                                    if let Some((_, uctx, lv)) = &r.replacement {
+                                        s.push_str(&format!(" || RU: {} levels={}/{}", show_ctx(uctx, &root), level(lv.0), level(lv.1)));
+                                    }
+                                }
+                            }
+                        }
+                        s.push_str(&format!(" || {}", show_unit(&b.install, &root, &scratch)));
+                        s
+                    })
+                    .collect();
                 out.line(line.clone(), if shown.is_empty() { "none".to_string() } else { shown.join(" ;; ") });
                 let n_opts = rec.0.iter().filter(|(k, v)| !k.starts_with('@') && !k.contains('#') && (v == "T" || v.starts_with("s:") || (v.starts_with("l:") && v.len() > 2))).count();
                 out.count(&format!("evm:{}", rec.get("options.evm_network").unwrap_or("?")));
                 out.count(&format!("options-on:{:02}-{:02}", n_opts / 5 * 5, n_opts / 5 * 5 + 4));
-                for k in ["@provided", "@prev", "@listen", "@nat", "@metrics_via_server", "@case", "@count"] {
+                for k in ["@provided", "@prev", "@listen", "@nat", "@metrics_via_server", "@case", "@count", "@later", "@drestart"] {
                     if rec.get(k).is_some() {
                         out.count(&format!("circumstance:{k}"));
                     }
@@ -204,11 +346,12 @@ fn main() {
                 let pat: String = rec.0.iter().filter(|(k, _)| !k.contains('#')).map(|(k, v)| format!("{k}={}", if k == "@fail" || k == "@count" { v.as_str() } else if v.starts_with("s:") { "s" } else if v.starts_with("l:") && v.len() > 2 { "l" } else { v })).collect::<Vec<_>>().join(" ");
                 out.nontrivial_case(&pat);
                 for b in &bs {
-                    oracle(&rec, b, &line, &mut out);
+                    oracle(&rec, b, &line, &mut out, &root, &scratch);
                 }
             }
         }
     }
     let _ = std::fs::remove_dir_all(&root);
+    let _ = std::fs::remove_dir_all(&scratch);
     out.finish();
 }
